@@ -115,3 +115,61 @@ func verifH_C02_dispatch_client() {
 	verifAssert(order == "12", "events of one emitter are handed to the receiving application in the order they were sent")
 	verifReach("end")
 }
+
+// C02_dispatch_burst: a burst: five events of one emitter arrive in two Engine.IO payloads ([1,2,3] then [4,5]) while the
+// handlers of the first ones are still running (every handler yields once, so the reader's second payload can land at
+// any point of the dispatching), under all interleavings at synchronisation points. Every event is handed over exactly
+// once and in the order it was sent, on the server and on the client.
+//
+//verif:unwind 16
+//verif:preempt 2
+//verif:visops 120
+//verif:rand concrete
+func verifH_C02_dispatch_burst() {
+	order := ""
+	onServer := verifAnyBool()
+	var deliver func(frames ...string)
+	if onServer {
+		w := verifServerWorld("/")
+		w.conn.parser = &verifFrameParser{log: &w.encoded}
+		s := w.verifConnected("/")["/"]
+		for _, n := range []string{"1", "2", "3", "4", "5"} {
+			name := n
+			s.OnEvent("e"+name, func() {
+				order += name
+				verifYield()
+			})
+		}
+		deliver = func(frames ...string) {
+			var ps []*eioparser.Packet
+			for _, f := range frames {
+				ps = append(ps, verifMsg(f))
+			}
+			w.conn.onEIOPacket(ps...)
+		}
+	} else {
+		var log []verifEncoded
+		m, cl := verifClientWorld(&verifFrameParser{log: &log}, "/")
+		for _, n := range []string{"1", "2", "3", "4", "5"} {
+			name := n
+			cl["/"].OnEvent("e"+name, func() {
+				order += name
+				verifYield()
+			})
+		}
+		deliver = func(frames ...string) {
+			var ps []*eioparser.Packet
+			for _, f := range frames {
+				ps = append(ps, verifMsg(f))
+			}
+			m.onEIOPacket(ps...)
+		}
+	}
+	verifThreads(true)
+	deliver("2/,e1", "2/,e2", "2/,e3")
+	deliver("2/,e4", "2/,e5")
+	verifWaitQuiescent()
+	verifAssert(len(order) == 5, "every event of the burst reaches its handler exactly once")
+	verifAssert(order == "12345", "events of one emitter are handed to the receiving application in the order they were sent")
+	verifReach("end")
+}
